@@ -230,7 +230,7 @@ theorem quiescent_settled (env : Env) (s : State E) (hp : s.pending = true) (hg 
     rw [h2] at h1; cases h1
   · -- blind: nothing is touched
     rw [h]
-    refine ⟨fun h1 => by rw [hpm] at h1; cases h1, (adjusting_congr env s _ rfl rfl).trans ha, hg, ?_, ?_⟩
+    refine ⟨fun h1 => (by rw [hpm] at h1; cases h1), (adjusting_congr env s _ rfl rfl).trans ha, hg, ?_, ?_⟩
     · intro _
       show s.blocked = false
       rw [adjusting_eq] at ha
